@@ -1573,6 +1573,80 @@ Qed.
 
 End Visibility.
 
+(* ---- a boolean checker for the closure hypotheses of copy_unaffected_by_parent ---------- *)
+Definition npb (tags : list tid) (l : loc) : bool :=
+  Nat.ltb l (length tags) && negb (tid_eqb (nth l tags TShared) TParent).
+Definition okSb (ta : list tid) (s : slice) : bool :=
+  match s with SNil => true | Sl l _ _ _ => npb ta l end.
+Definition okOb (to : list tid) (o : option loc) : bool :=
+  match o with Some l => npb to l | None => true end.
+Definition okVb (ta to : list tid) (v : variable) : bool :=
+  okSb ta (v_list v) && okSb ta (v_idx v) && okOb to (v_map v).
+Definition okCellb (ta to : list tid) (c : ocell) : bool :=
+  match c with
+  | CEnv p _ vals => okOb to p && forallb (fun nv => okVb ta to (snd nv)) vals
+  | CBase vals => forallb (fun nv => okVb ta to (snd nv)) vals
+  | _ => true
+  end.
+Fixpoint closed_from (ta to : list tid) (k : nat) (cells : list ocell) : bool :=
+  match cells with
+  | [] => true
+  | c :: rest => (negb (npb to k) || okCellb ta to c) && closed_from ta to (S k) rest
+  end.
+Definition closedPb (ta to : list tid) (h : heaps) : bool := closed_from ta to 0 (ho h).
+Definition okRb (ta to : list tid) (r : runner) : bool :=
+  npb to (r_env r) && okOb to (r_funcs r) && okOb to (r_alias r) && okSb ta (r_dirstack r) && okSb ta (r_params r).
+
+Lemma npb_spec tags l : npb tags l = true <-> not_parent tags l.
+Proof.
+  unfold npb, not_parent. rewrite andb_true_iff, Nat.ltb_lt, negb_true_iff. split; intros [A B]; split; auto.
+  - intro E. rewrite E in B. discriminate.
+  - destruct (nth l tags TShared); simpl; auto. congruence.
+Qed.
+Lemma okSb_spec ta s : okSb ta s = true -> okS (not_parent ta) s.
+Proof. destruct s; simpl; auto. apply npb_spec. Qed.
+Lemma okOb_spec to o : okOb to o = true -> okO (not_parent to) o.
+Proof. destruct o; simpl; auto. apply npb_spec. Qed.
+Lemma okVb_spec ta to v : okVb ta to v = true -> okV (not_parent ta) (not_parent to) v.
+Proof.
+  unfold okVb, okV. rewrite !andb_true_iff. intros [[A B] C].
+  auto using okSb_spec, okOb_spec.
+Qed.
+Lemma okValsb_spec ta to vals :
+  forallb (fun nv => okVb ta to (snd nv)) vals = true -> okVals (not_parent ta) (not_parent to) vals.
+Proof.
+  intros H. apply Forall_forall. intros x Hx. apply okVb_spec.
+  eapply (proj1 (forallb_forall _ _) H); eauto.
+Qed.
+Lemma okCellb_spec ta to c : okCellb ta to c = true -> okCell (not_parent ta) (not_parent to) c.
+Proof.
+  destruct c; simpl; auto using okValsb_spec.
+  rewrite andb_true_iff. intros [A B]. split; [|apply okValsb_spec; auto].
+  destruct parent; auto. apply npb_spec. exact A.
+Qed.
+Lemma closed_from_spec ta to cells : forall k l c,
+  closed_from ta to k cells = true -> nth_error cells l = Some c -> npb to (k + l) = true ->
+  okCellb ta to c = true.
+Proof.
+  induction cells as [|c0 rest IH]; intros k l c H E N; [destruct l; discriminate|].
+  simpl in H. apply andb_true_iff in H. destruct H as [H1 H2].
+  destruct l as [|l]; simpl in E.
+  - injection E as <-. rewrite Nat.add_0_r in N. rewrite N in H1. simpl in H1. exact H1.
+  - eapply (IH (S k) l c); eauto. rewrite <- N. f_equal. lia.
+Qed.
+Lemma closedPb_spec ta to h :
+  closedPb ta to h = true -> closedP (not_parent ta) (not_parent to) h.
+Proof.
+  intros H l c Pl E. apply okCellb_spec.
+  eapply (closed_from_spec ta to (ho h) 0 l c); eauto. simpl. apply npb_spec; auto.
+Qed.
+Lemma okRb_spec ta to r : okRb ta to r = true -> okR (not_parent ta) (not_parent to) r.
+Proof.
+  unfold okRb, okR. rewrite !andb_true_iff. intros [[[[A B] C] D] E].
+  split; [apply npb_spec; exact A|]. split; [apply okOb_spec; exact B|]. split; [apply okOb_spec; exact C|].
+  split; [apply okSb_spec; exact D | apply okSb_spec; exact E].
+Qed.
+
 (* ======================================================================================= *)
 (* concrete witnesses                                                                         *)
 Open Scope N_scope.
@@ -1638,4 +1712,35 @@ Proof.
   exists (st_r ex_parent), (st_h ex_parent).
   destruct ex_parent_wf as [A B]. split; [exact A | split; [exact B |]].
   unfold not; intro E. destruct bg; vm_compute in E; discriminate E.
+Qed.
+
+(* a concrete instance of every hypothesis of copy_unaffected_by_parent *)
+Definition ex_ta : list tid := [TShared; TShared].
+Definition ex_to : list tid := [TParent; TParent; TShared; TParent].
+Definition ex_cf : conf := fork_conf ex_grow (st_r ex_parent) (st_h ex_parent) ex_ta ex_to.
+
+Lemma ex_fork_hyps :
+  length ex_ta = length (ha (st_h ex_parent)) /\ length ex_to = length (ho (st_h ex_parent)) /\
+  tinv TParent ex_ta ex_to (st_r ex_parent) (st_h ex_parent) /\
+  (forall l, nth l ex_to TShared <> TChild) /\
+  closedP (not_parent (cf_ta ex_cf)) (not_parent (cf_to ex_cf)) (cf_h ex_cf) /\
+  okR (not_parent (cf_ta ex_cf)) (not_parent (cf_to ex_cf)) (cf_c ex_cf).
+Proof.
+  split; [reflexivity|]. split; [reflexivity|]. split; [|split; [|split]].
+  - split.
+    + vm_compute. repeat split; auto; try lia.
+    + intros l p vals [L T] E. vm_compute in E.
+      do 4 (destruct l as [|l]; [discriminate E|]). destruct l; discriminate E.
+  - intros l. do 5 (destruct l as [|l]; [simpl; discriminate|]). simpl. destruct l; discriminate.
+  - apply closedPb_spec. vm_compute. reflexivity.
+  - apply okRb_spec. vm_compute. reflexivity.
+Qed.
+
+(* the child's view in that instance is not trivial, and the parent's later operations do change the parent *)
+Lemma ex_copy_unaffected ops :
+  observe (cf_c ex_cf) (cf_h (run_sched ex_grow (map (fun o => (true, o)) ops) ex_cf)) =
+  observe (cf_c ex_cf) (cf_h ex_cf).
+Proof.
+  destruct ex_fork_hyps as (A & B & C & D & E & F).
+  apply (copy_unaffected_by_parent ex_grow _ _ _ _ ops A B C D E F).
 Qed.
